@@ -194,6 +194,23 @@ def job_offgrid(ctx):
         day = datetime.date(y, mth, dd)
         _judge(ctx, holder, 'date-offgrid', None, day, f'date({y},{mth},{dd})', P, B)
         ctx.cls('offgrid')
+    # the constructor route: WMM(date, latitude, longitude, height) answers for the date it was GIVEN
+    from ahrs.utils.wmm import WMM
+    for d in (2015.0, 2017.3, 2019.9, 2020.0, 2023.7, 2025.0, 2028.2, datetime.date(2017, 5, 12), datetime.date(2024, 12, 31)):
+        name, g, h = rw.coefficients(d)
+        for (lat, lon, hk), (WG, WH) in list(zip(P, B))[::5]:
+            key = f'ctor date={d!r} lat={lat!r} lon={lon!r} h={hk!r}'
+            exp = WG @ g + WH @ h
+            try:
+                w = WMM(date=d, latitude=float(lat), longitude=float(lon), height=float(hk))
+                obs = np.array([w.X, w.Y, w.Z], float)
+            except Exception as ex:
+                ctx.evals += 1
+                ctx.fail('WMM(date, lat, lon, h) returns a field', key, f'{type(ex).__name__}: {ex}'[:160], exp)
+                continue
+            ctx.close(obs, exp, TOL, 'WMM(date, lat, lon, h): X, Y, Z = degree-12 synthesis for the date given to the constructor', key)
+            ctx.seen(('ctor', repr(d), lat, lon, hk))
+            ctx.cls('form:constructor')
     ctx.sample({'form': 'float-offgrid', 'dates': OFFGRID})
 
 
